@@ -45,6 +45,30 @@ void one_case(const char* types, int w, int h, int K, int c, boundary opt, vt::R
                 .raw("before", img_json(gil::const_view(before), ch)).raw("dst", img_json(gil::const_view(dst), ch)).emit();
     }
 }
+// fractional (dyadic) taps k/4 with an 8-bit destination: the source holds multiples of 4, so every product and sum is an integer
+// and exact in the float accumulator; the destination receives the (integral) sum
+inline void frac_case(int w, int h, int K, int c, boundary opt, vt::Rng& rng) {
+    const int M = 5;
+    gil::gray8_image_t big(w + 2 * M, h + 2 * M);
+    for (auto& p : gil::view(big)) p = gil::gray8_pixel_t((uint8_t)(4 * rng.below(K == 1 ? 60 : 30)));
+    auto src = gil::subimage_view(gil::const_view(big), M, M, w, h);
+    std::vector<float> kv(K); std::vector<long long> knum(K);
+    for (int i = 0; i < K; ++i) { knum[i] = (K == 1) ? 1 + rng.below(3) : rng.below(3); kv[i] = (float)knum[i] / 4.0f; }
+    gil::kernel_1d<float> ker(kv.begin(), K, c);
+    for (Fn fn : {Fn{"correlate_rows", 0}, Fn{"correlate_cols", 1}, Fn{"convolve_rows", 2}, Fn{"convolve_cols", 3}}) {
+        gil::gray8_image_t dst(w, h); for (auto& p : gil::view(dst)) p = gil::gray8_pixel_t((uint8_t)rng.below(250));
+        gil::gray8_image_t before(dst);
+        switch (fn.kind) {
+            case 0: gil::correlate_rows<gil::gray32f_pixel_t>(src, ker, gil::view(dst), opt); break;
+            case 1: gil::correlate_cols<gil::gray32f_pixel_t>(src, ker, gil::view(dst), opt); break;
+            case 2: gil::convolve_rows<gil::gray32f_pixel_t>(src, ker, gil::view(dst), opt); break;
+            default: gil::convolve_cols<gil::gray32f_pixel_t>(src, ker, gil::view(dst), opt); break;
+        }
+        J("Corr").str("fn", fn.name).str("types", "gray8->gray8/float/quarter-taps").str("opt", optname(opt)).num("w", w).num("h", h).arr("ker", knum).num("kden", 4).num("c", c).num("ch", 0)
+            .raw("src", img_json(src, 0)).raw("big", img_json(gil::const_view(big), 0)).num("ox", M).num("oy", M)
+            .raw("before", img_json(gil::const_view(before), 0)).raw("dst", img_json(gil::const_view(dst), 0)).emit();
+    }
+}
 template <std::size_t K> void fixed_case(int w, int h, int c, boundary opt, vt::Rng& rng) {
     const int M = 5;
     gil::gray8_image_t big(w + 2 * M, h + 2 * M); for (auto& p : gil::view(big)) p = gil::gray8_pixel_t(rng.below(40));
@@ -97,6 +121,7 @@ int main(int argc, char** argv) {
             one_case<gil::gray8_pixel_t, gil::gray32f_pixel_t, gil::gray32f_pixel_t, float, 1>("gray8->gray32f/float", w, h, K, c, opt, rng);
             if ((w + h + K) % 2 == 0) one_case<gil::rgb8_pixel_t, gil::rgb32f_pixel_t, gil::rgb32f_pixel_t, float, 3>("rgb8->rgb32f/float", w, h, K, c, opt, rng);
             if ((w + K) % 3 == 0) one_case<gil::gray16s_pixel_t, gil::gray32s_pixel_t, gil::gray32s_pixel_t, int, 1>("gray16s->gray32s/int", w, h, K, c, opt, rng);
+            if (K <= 3) frac_case(w, h, K, c, opt, rng);
             if (K == 3) fixed_case<3>(w, h, c, opt, rng);
             if (K == 5) fixed_case<5>(w, h, c, opt, rng);
         });
